@@ -220,10 +220,13 @@ def run_job(job):
             res.count("tables_with_thousands_of_rows")
         if shape == "big":
             # one record larger than 8 KiB of multi-byte text for the CSV writer's buffer boundary
-            big = "dir" + "日" * 60
+            # ... whose first component may hold a raw line feed, tab or carriage return: what follows the last line feed of a
+            # row is then longer than any line buffer, in the formats that print it raw
+            first = rng.choice(["dir", "li\nne", "li\nne", "t\tab", "c\rr", "q\"uo,te"])
+            res.cover("big_record_first_component", repr(first))
             p = d
             for k in range(14):
-                p = os.path.join(p, big + str(k))
+                p = os.path.join(p, (first if k == 0 else "dir") + "日" * 60 + str(k))
                 os.mkdir(p)
         # a second root (0..3 entries): rows, separators and the footer must not depend on which root a row comes from
         os.mkdir(os.path.join(w, "e"))
@@ -362,6 +365,6 @@ def main(chk):
         assumptions=["JSON objects are compared as value multisets plus member count (key naming is not part of the property)",
                      "tabs/lines are compared only when no value contains the separator",
                      "grouped rows without ORDER BY are compared as multisets (group order is unspecified)"],
-        require={"from": 6, "format_path": 20, "hostile_chars_in_values": 12},
+        require={"from": 6, "format_path": 20, "hostile_chars_in_values": 12, "big_record_first_component": 4},
         exhaustive={"formats_x_paths": "json csv html tabs lines x streamed ordered aggregate grouped (list is the reference)"},
     )
